@@ -2,20 +2,22 @@ package main
 
 import (
 	"math/big"
-
-	"github.com/zenon-network/go-zenon/vm/embedded"
+	. "zharness/hz"
 )
 
 func init() { collectors = append(collectors, collectC12Methods) }
 
-// base plasma of every embedded method: key = (20-byte contract address ‖ 4-byte selector) read as one big-endian
-// number; parallel lists
+// base plasma of every embedded method of every method table (origin, accelerator, bridge-and-liquidity, htlc), as
+// embedded.GetEmbeddedMethod + Method.GetPlasma answer under the sporks of that table: key = (table index + 1) ‖ 20-byte
+// contract address ‖ 4-byte selector read as one big-endian number; parallel lists
 func collectC12Methods() {
 	var keys, vals []*big.Int
-	for _, e := range embedded.VerifMethodPlasma() {
-		k := new(big.Int).SetBytes(append(append([]byte{}, e.Contract[:]...), e.Selector...))
-		keys = append(keys, k)
-		vals = append(vals, new(big.Int).SetUint64(e.Plasma))
+	for _, mc := range MethodCosts() {
+		if !mc.Priced {
+			continue
+		}
+		keys = append(keys, MethodCostKey(mc.Regime, mc.Contract, mc.Selector))
+		vals = append(vals, new(big.Int).SetUint64(mc.Plasma))
 	}
 	consts.list["MethodPlasmaKeys"] = keys
 	consts.list["MethodPlasmaVals"] = vals
